@@ -103,3 +103,22 @@ pub proof fn lemma_wd(n: int)
 
 pub open spec fn abs(a: int) -> int { if a >= 0 { a } else { -a } }
 pub open spec fn sign_of(a: int) -> int { if a >= 0 { 1 } else { -1 } }
+
+// ---- IEEE double operations, named.  Verus leaves `as f64` and `/` on doubles unspecified; the extractor rewrites
+// `X as f64 / Y as f64` into these two wrappers (rewrite `ieee-ops-named`), whose only assumed property is that the
+// hardware operation is a FUNCTION of its operands.  Contracts can then pin down WHICH integers reach the
+// conversion and the division (e.g. the sub-minute remainder, not the whole count).
+pub uninterp spec fn spec_ieee_from_i64(x: int) -> f64;
+pub uninterp spec fn spec_ieee_div(a: f64, b: f64) -> f64;
+/// the fractional second of a sub-minute microsecond count
+pub open spec fn spec_second_of(n: int) -> f64 { spec_ieee_div(spec_ieee_from_i64(n), spec_ieee_from_i64(1_000_000)) }
+
+#[verifier::external_body]
+pub fn ieee_from_i64(x: i64) -> (r: f64)
+    ensures r == spec_ieee_from_i64(x as int),
+{ x as f64 }
+
+#[verifier::external_body]
+pub fn ieee_div(a: f64, b: f64) -> (r: f64)
+    ensures r == spec_ieee_div(a, b),
+{ a / b }
